@@ -416,7 +416,7 @@ pub const DSP_NAMES: &[&str] = &["fir", "fir_c", "hilbert", "iir1", "fastfm", "f
 pub const HAND_NAMES: &[&str] = &[
     "skip", "delay", "resampler", "rtlsdr", "fir", "fir_c", "fftfilter", "fftfilter_f", "hilbert", "fftstream",
     "auenc", "zerocross", "symsync", "hdlc", "il2p", "quaddemod", "fastfm", "iir1", "s2pdu", "v2s",
-    "totext", "cma", "midpointer", "wpcr", "nullsink", "vectorsink",
+    "totext", "cma", "midpointer", "wpcr", "nullsink", "vectorsink", "zerocross_clk", "symsync_clk",
 ];
 
 /// small integer-valued floats: all sums in the filters are exact
@@ -552,6 +552,33 @@ pub fn build_hand(name: &str, rng: &mut Rng) -> Built {
                     Box::new(rustradio::symbol_sync::TedZeroCrossing::new()),
                     Box::new(filter)
                 ))
+            })
+        }
+        "zerocross_clk" => {
+            let sps = *rng.pick(&[2.5f32, 4.0, 5.2083335, 10.0]);
+            params = vec![sps.to_bits() as u64];
+            alphabets = vec![wave_alpha()];
+            rig12::<f32, f32>(rng, |r| {
+                let (mut b, o) = ZeroCrossing::new(r, sps, 0.1);
+                let clk = b.out_clock();
+                (Box::new(b) as Box<dyn Block>, o, clk)
+            })
+        }
+        "symsync_clk" => {
+            let sps = *rng.pick(&[2.5f32, 4.0, 5.2083335, 10.0]);
+            params = vec![sps.to_bits() as u64];
+            alphabets = vec![wave_alpha()];
+            rig12::<f32, f32>(rng, |r| {
+                let filter = rustradio::iir_filter::IirFilter::new(&[0.5f32, 0.5]);
+                let (mut b, o) = SymbolSync::new(
+                    r,
+                    sps,
+                    0.5,
+                    Box::new(rustradio::symbol_sync::TedZeroCrossing::new()),
+                    Box::new(filter),
+                );
+                let clk = b.out_clock().expect("clock output");
+                (Box::new(b) as Box<dyn Block>, o, clk)
             })
         }
         "hdlc" => {
@@ -1006,6 +1033,75 @@ pub fn eof_probes(rng: &mut Rng) -> Vec<String> {
 }
 
 /// One drip-feed case of block `name`. Returns `request<TAB>observed`.
+/// Blocks whose output rate differs from their input rate or that keep state per sample: run with the output
+/// kept (nearly) full — fill it, then drain a few samples at a time, the second output (if any) more slowly —
+/// against the greedy run. Chunking must not matter and nothing may panic or be written past a window.
+pub const TIGHT_NAMES: &[&str] = &[
+    "symsync", "symsync_clk", "zerocross", "zerocross_clk", "fir", "fir_c", "resampler", "quaddemod", "fastfm", "iir1",
+    "hilbert", "skip", "delay", "rtlsdr", "cma",
+];
+
+pub fn tight_selfcheck(name: &str, rng: &mut Rng) -> Vec<String> {
+    let mut rng_b = rng.clone();
+    let built_a = build(name, rng);
+    let built_b = build(name, &mut rng_b);
+    let nout = built_a.rig.outs.len();
+    let out_cap = built_a.rig.outs.iter().map(|o| o.cap()).min().unwrap_or(1024);
+    let in_cap = built_a.rig.ins.iter().map(|i| i.cap()).max().unwrap_or(4096);
+    let (m, tbl) = built_a.alphabets[0].clone();
+    // enough input to fill the output several times even at 10 samples per symbol
+    let len = in_cap * rng.range(3, 7) + out_cap * rng.range(2, 12);
+    let ins = vec![InSpec { pkts: vec![], len, seed: rng.next() >> 8, m, tbl, tags: gen_tags(rng, len, false), fixed: None }];
+    let mut acts = Vec::new();
+    for _ in 0..(2 + len / in_cap.max(1)) {
+        acts.push(Act::Feed(0, 1_000_000));
+        acts.push(Act::Work);
+        acts.push(Act::Work);
+    }
+    let k0 = *rng.pick(&[1usize, 2, 3, 7, 13]);
+    for i in 0..(len / 4 + 400).min(6000) {
+        let k = 1 + (i * 7 + k0) % (2 * k0 + 1);
+        acts.push(Act::Drain(0, k));
+        if nout > 1 && i % 3 == 0 {
+            acts.push(Act::Drain(1, k / 2));
+        }
+        acts.push(Act::Feed(0, 1_000_000));
+        acts.push(Act::Work);
+        if i % 5 == 0 {
+            acts.push(Act::Work);
+        }
+    }
+    let acts_b = greedy_schedule(1, nout, &[len]);
+    let short = request(&built_a.name, &built_a.params, &built_a.rig, &ins, &[]);
+    let id = format!("{short} tight k0={k0} len={len}");
+    let a = run_case_full(built_a.rig, &ins, &acts, true);
+    let b = run_case_full(built_b.rig, &ins, &acts_b, true);
+    let mut out = Vec::new();
+    let mut verdict = "pass".to_string();
+    if a.panicked || b.panicked {
+        verdict = format!("FAIL panic (tight={}, greedy={})", a.panicked, b.panicked);
+    } else {
+        for j in 0..nout {
+            if a.collected[j] != b.collected[j] {
+                let first = a.collected[j].iter().zip(&b.collected[j]).position(|(x, y)| x != y);
+                verdict = format!(
+                    "FAIL output {j}: run with the output kept full delivered {} items, greedy run {}, first difference at {first:?}",
+                    a.collected[j].len(),
+                    b.collected[j].len()
+                );
+                break;
+            }
+        }
+    }
+    out.push(format!("!chunk {id}\t{verdict}\t{}", if verdict == "pass" { String::new() } else { format!("{name}-tight") }));
+    let c9 = match c09_accept(&a, 4) {
+        Ok(()) => "pass".to_string(),
+        Err(e) => format!("FAIL {e}"),
+    };
+    out.push(format!("!c09 {id}\t{c9}\t{}", if c9 == "pass" { String::new() } else { format!("{name}-tight-verdict") }));
+    out
+}
+
 pub fn case(name: &str, rng: &mut Rng, steps: usize, heavy_tags: bool) -> String {
     let built = build(name, rng);
     let nin = built.rig.ins.len();
@@ -1073,6 +1169,14 @@ pub fn run(args: &[String]) -> Vec<String> {
         out.extend(ctor_probes());
         let mut r = rng.fork();
         out.extend(eof_probes(&mut r));
+    }
+    for i in 0..arg_usize(args, "--tight-probes", 0) {
+        let mut r = rng.fork();
+        let name = match &only_block {
+            Some(b) => b.as_str(),
+            None => TIGHT_NAMES[i % TIGHT_NAMES.len()],
+        };
+        out.extend(tight_selfcheck(name, &mut r));
     }
     for i in 0..cases {
         let mut r = rng.fork();
